@@ -5,7 +5,7 @@
    `kreach k`: the state of one host's kernel after ANY sequence of syscalls
    (any fd, any argument) and ANY inbound packets, for any KernelConfig. *)
 From TV.Lib Require Import Base.
-From TV.NetTcp Require Import Gen Model Facts C16_proofs C13_proofs C13_own.
+From TV.NetTcp Require Import Gen Model Facts C16_proofs C13_proofs C13_own C13_part.
 Open Scope N_scope.
 
 (* The socket table and its two indexes stay coherent: fds are unique, every
@@ -110,6 +110,32 @@ Theorem c13_accept_logs : forall o fd,
   end.
 Proof. exact accept_logs_lemma. Qed.
 
+(* OWNERSHIP: every entry of the socket table is accounted for — after ANY
+   sequence of application calls on held handles, inbound packets and egress
+   passes, each socket is (1) held by an application handle, or (2) queued in
+   a listener's accept queue, or (3) kernel-closed (lingering; reaped by the
+   egress pass that finds it terminal, c13_reclaimed_partial), or (4) a
+   handshaking child that is not kernel-closed and whose bound address is
+   covered by a live listener in the binding index (so its completion is
+   queued, its abort marks it kernel-closed — repaired defect 47448a4 — and
+   the listener's close removes it).  Nothing else exists: no table entry can
+   be orphaned. *)
+Theorem c13_owned : forall c a es,
+  let o := orun (oinit c a) es in
+  forall fd s, In (fd, s) (socks (okk o)) ->
+    In fd (owned o) \/ In fd (ready_of (okk o)) \/ fd_closed s = true \/
+    (is_synrcvd s = true /\ fd_closed s = false /\ exists bs, s_bound s = Some bs /\ has_listener (okk o) bs).
+Proof. exact owned_lemma. Qed.
+
+(* Listeners are always held by the application (they vanish only through
+   their own close, which takes their unaccepted children with it), have no
+   TCB and are never kernel-closed; what is queued for accept is no listener. *)
+Theorem c13_listeners_held : forall c a es,
+  let o := orun (oinit c a) es in
+  (forall fd s, In (fd, s) (socks (okk o)) -> is_listener s = true -> In fd (owned o) /\ s_tcb s = None /\ fd_closed s = false) /\
+  (forall x s, In x (ready_of (okk o)) -> In (x, s) (socks (okk o)) -> is_listener s = false).
+Proof. exact listeners_held_lemma. Qed.
+
 (* Reclamation, the proved part: (1) after every egress pass no socket is left
    that is kernel-closed and terminal; (2) closing a socket that holds no live
    connection (listener handled separately, datagram, handshaking, reset,
@@ -195,6 +221,8 @@ Print Assumptions c13_synsent_outcomes.
 Print Assumptions c13_accept_pops.
 Print Assumptions c13_accept_once.
 Print Assumptions c13_accept_logs.
+Print Assumptions c13_owned.
+Print Assumptions c13_listeners_held.
 Print Assumptions c13_reclaimed_partial.
 Print Assumptions c13_close_open.
 Print Assumptions c13_reclaimed_refuted.
